@@ -205,3 +205,115 @@ func first(a, _ []byte) []byte { return a }
 //@   ensures[first_greater_occupied] mathint(result) == first(i, 0, 16, i < mathint(childrenLen) && ult(b, keys[i]))
 //@   assigns nothing
 //@   loop 1 unroll 16
+
+// ---------------------------------------------------------------------------
+// Layer B: one inner node as an ordered byte -> child table (mode int:
+// mathematical integers with machine-range obligations on every operation).
+//
+// Abstract view of a node: lookP(r, x) / lookT(r, x) = pointer / tag of the
+// child registered under byte x in the node referenced by r (nil if none).
+
+//@ spec hasLane4(n, i, x) = i < n.childrenLen && lane(n.keys, i) == x
+//@ spec lookP4(n, x) = ite(hasLane4(n,0,x), n.children[0].pointer, ite(hasLane4(n,1,x), n.children[1].pointer, ite(hasLane4(n,2,x), n.children[2].pointer, ite(hasLane4(n,3,x), n.children[3].pointer, nil))))
+//@ spec lookT4(n, x) = ite(hasLane4(n,0,x), n.children[0].tag, ite(hasLane4(n,1,x), n.children[1].tag, ite(hasLane4(n,2,x), n.children[2].tag, ite(hasLane4(n,3,x), n.children[3].tag, 0))))
+//@ spec has4(n, x) = hasLane4(n,0,x) || hasLane4(n,1,x) || hasLane4(n,2,x) || hasLane4(n,3,x)
+
+//@ spec idx16(n, x) = first(i, 0, 16, i < n.childrenLen && n.keys[i] == x)
+//@ spec has16(n, x) = idx16(n, x) >= 0
+//@ spec lookP16(n, x) = ite(has16(n, x), n.children[idx16(n, x)].pointer, nil)
+//@ spec lookT16(n, x) = ite(has16(n, x), n.children[idx16(n, x)].tag, 0)
+
+//@ spec has48(n, x) = n.keys[x] != 0
+//@ spec lookP48(n, x) = ite(n.keys[x] != 0, n.children[n.keys[x]-1].pointer, nil)
+//@ spec lookT48(n, x) = ite(n.keys[x] != 0, n.children[n.keys[x]-1].tag, 0)
+
+//@ spec has256(n, x) = n.children[x].pointer != nil
+//@ spec lookP256(n, x) = n.children[x].pointer
+//@ spec lookT256(n, x) = ite(n.children[x].pointer != nil, n.children[x].tag, 0)
+
+//@ spec lookP(r, x) = ite(r.tag == 0, lookP4(as(node4, r.pointer), x), ite(r.tag == 1, lookP16(as(node16, r.pointer), x), ite(r.tag == 2, lookP48(as(node48, r.pointer), x), lookP256(as(node256, r.pointer), x))))
+//@ spec lookT(r, x) = ite(r.tag == 0, lookT4(as(node4, r.pointer), x), ite(r.tag == 1, lookT16(as(node16, r.pointer), x), ite(r.tag == 2, lookT48(as(node48, r.pointer), x), lookT256(as(node256, r.pointer), x))))
+
+// Class invariants. Inv4's third clause (unoccupied lanes are non-increasing)
+// is what makes the unguarded insertPosNode4 safe to use as an index.
+// cntP / cntNZ are the counting spec functions of govc/lemmas.go (number of
+// non-nil children / non-zero key bytes below an index).
+//@ spec Inv4(n) = n.childrenLen <= 4 && forall(i, 0, 3, implies(i+1 < n.childrenLen, lane(n.keys,i) < lane(n.keys,i+1))) && forall(i, 0, 3, implies(i >= n.childrenLen, lane(n.keys,i) >= lane(n.keys,i+1))) && forall(i, 0, 4, implies(i < n.childrenLen, n.children[i].pointer != nil))
+//@ spec Inv16(n) = n.childrenLen <= 16 && forall(i, 0, 15, implies(i+1 < n.childrenLen, n.keys[i] < n.keys[i+1])) && forall(i, 0, 16, implies(i < n.childrenLen, n.children[i].pointer != nil))
+//@ spec Inv48(n) = n.childrenLen <= 48 && n.childrenLen == cntP(n.children, 48) && n.childrenLen == cntNZ(n.keys, 256) && forall(x, 0, 256, n.keys[x] <= 48 && implies(n.keys[x] != 0, n.children[n.keys[x]-1].pointer != nil)) && forall(x, 0, 256, forall(y, 0, 256, implies(x != y && n.keys[x] != 0, n.keys[x] != n.keys[y])))
+//@ spec Inv256(n) = n.childrenLen == cntP(n.children, 256) % 256
+//@ spec InvRef(r) = ite(r.tag == 0, Inv4(as(node4, r.pointer)), ite(r.tag == 1, Inv16(as(node16, r.pointer)), ite(r.tag == 2, Inv48(as(node48, r.pointer)), r.tag == 3 && Inv256(as(node256, r.pointer)))))
+//@ spec typeOK(r) = r.pointer != nil && atype(r.pointer) == ite(r.tag == 0, typeid(node4), ite(r.tag == 1, typeid(node16), ite(r.tag == 2, typeid(node48), typeid(node256))))
+
+//@ spec ZeroHdr(n) = n.prefixLen == 0 && n.childrenLen == 0 && forall(i, 0, 10, n.prefix[i] == 0)
+//@ spec Zero4(n) = ZeroHdr(n) && n.keys == 0 && forall(i, 0, 4, n.children[i].pointer == nil && n.children[i].tag == 0)
+//@ spec Zero16(n) = ZeroHdr(n) && forall(i, 0, 16, n.keys[i] == 0 && n.children[i].pointer == nil && n.children[i].tag == 0)
+//@ spec Zero48(n) = ZeroHdr(n) && forall(i, 0, 256, n.keys[i] == 0) && forall(i, 0, 48, n.children[i].pointer == nil && n.children[i].tag == 0)
+//@ spec Zero256(n) = ZeroHdr(n) && forall(i, 0, 256, n.children[i].pointer == nil && n.children[i].tag == 0)
+
+//@ spec hdrSame(p, q) = as(node, p).prefixLen == old(as(node, q).prefixLen) && forall(i, 0, 10, as(node, p).prefix[i] == old(as(node, q).prefix[i]))
+
+//@ func (*nodeRef).node
+//@   inline
+
+//@ func (*node4).clear
+//@   requires n4 != nil
+//@   ensures[zero] Zero4(n4)
+//@   ensures[frame] frame(n4)
+
+//@ func (*node16).clear
+//@   requires n16 != nil
+//@   ensures[zero] Zero16(n16)
+//@   ensures[frame] frame(n16)
+
+//@ func (*node48).clear
+//@   requires n48 != nil
+//@   ensures[zero] Zero48(n48)
+//@   ensures[frame] frame(n48)
+
+//@ func (*node256).clear
+//@   requires n256 != nil
+//@   ensures[zero] Zero256(n256)
+//@   ensures[frame] frame(n256)
+
+//@ func (*nodeRef).findChild
+//@   requires typeOK(*ref) && InvRef(*ref)
+//@   ensures[absent_iff_nil] (result == nil) == (lookP(*ref, b) == nil)
+//@   ensures[slot_holds_child] implies(result != nil, (*result).pointer == lookP(*ref, b) && (*result).tag == lookT(*ref, b) && result.obj == (*ref).pointer)
+//@   ensures[pure] frame()
+
+// addChild: requires the byte to be absent; ensures the whole view (all 256
+// bytes) is the old view updated at b, header and class invariant preserved,
+// and nothing else in the heap changed. A node that is replaced by a larger
+// class must have been zeroed and relinked before it is pooled (C12; the
+// obligations put_zero / put_unlinked are generated at every Put site).
+
+//@ spec refIs(ref, n, k) = (*ref).pointer == n && (*ref).tag == k && ref.obj != n && allocated(ref.obj) && ref.obj != nil
+
+//@ func (*node256).addChild
+//@   requires n256 != nil && atype(n256) == typeid(node256) && Inv256(n256)
+//@   requires n256.children[b].pointer == nil && child.pointer != nil
+//@   ensures[view] forall(x, 0, 256, lookP256(n256, x) == ite(x == b, child.pointer, old(lookP256(n256, x))) && lookT256(n256, x) == ite(x == b, child.tag, old(lookT256(n256, x))))
+//@   ensures[inv] Inv256(n256)
+//@   ensures[hdr] hdrSame(n256, n256)
+//@   ensures[frame] frame(n256)
+//@   assigns SP ST node.childrenLen
+
+//@ func (*node48).addChild
+//@   requires n48 != nil && atype(n48) == typeid(node48) && Inv48(n48) && refIs(ref, n48, 2)
+//@   requires n48.keys[b] == 0 && child.pointer != nil
+//@   ensures[view] forall(x, 0, 256, lookP(*ref, x) == ite(x == b, child.pointer, old(lookP48(n48, x))) && lookT(*ref, x) == ite(x == b, child.tag, old(lookT48(n48, x))))
+//@   ensures[inv] typeOK(*ref) && InvRef(*ref)
+//@   ensures[hdr] hdrSame((*ref).pointer, n48)
+//@   ensures[replaced] (*ref).pointer == n48 || (fresh((*ref).pointer) && Zero48(n48))
+//@   ensures[frame] frame(n48, ref.obj, (*ref).pointer) && frameSlot(ref)
+//@   loop 1 (pos)
+//@     invariant pos <= 48 && cntP(n48.children, pos) == pos
+//@     decreases 48 - pos
+//@   loop 2 (i)
+//@     modifies SP ST
+//@     invariant 0 <= i && i <= 256 && frame()
+//@     invariant forall(x, 0, 256, implies(x < i, n256.children[x].pointer == ite(n48.keys[x] != 0, n48.children[n48.keys[x]-1].pointer, nil) && n256.children[x].tag == ite(n48.keys[x] != 0, n48.children[n48.keys[x]-1].tag, 0)))
+//@     invariant forall(x, 0, 256, implies(x >= i, n256.children[x].pointer == nil && n256.children[x].tag == 0))
+//@     invariant cntP(n256.children, i) == cntNZ(n48.keys, i)
+//@     decreases 256 - i
